@@ -30,14 +30,33 @@ Definition slice_elem (t : aty) : option aty := match t with ASlice e => Some e 
 
 (* "outside the supported set, must be reported": independent of the model.  Only claims
    for well-formed calls (the shape accepted by Add); everything else is reported by Add. *)
+(* the untyped nil has no type that could be printed as the type of a parameter *)
+Definition is_unil (t : aty) : bool := match t with ABasic KUNil => true | _ => false end.
+(* a channel that cannot be received from *)
+Definition is_sendonly (t : aty) : bool := match t with AChan DSend _ => true | _ => false end.
+(* a channel that is not a receive only channel *)
+Definition chan_not_recvonly (t : aty) : bool :=
+  match t with AChan (DBoth | DSend) _ => true | _ => false end.
+
 Definition must_report (p : plugin) (typs : list aty) : bool :=
   match p, typs with
   | PEqual, t :: _ => has_unsup false false t
   | PCompare, t :: _ => has_unsup true true t
-  | PHash, [t] => has_unsup true true t
+  | PHash, [t] => is_unil t || has_unsup true true t
   | PDeepcopy, [t; _] => has_unsup true false t
   | PClone, [t] => has_unsup true false t
-  | PGostring, [t] => has_unsup true false t
+  | PGostring, [t] => is_unil t || has_unsup true false t
+  | PTuple, [ATuple _] => false
+  | PTuple, _ => existsb is_unil typs
+  (* the combinators that receive from their channel arguments: a send only channel; join's
+     channel of channels hands out <-chan T, and channel element types have to be identical *)
+  | PDup, [c] => is_sendonly c
+  | PFmap, [_; c] => is_sendonly c
+  | PJoin, [ASlice c] => is_sendonly c
+  | PJoin, [AChan d (AChan d' e)] => is_sendonly (AChan d (AChan d' e)) || chan_not_recvonly (AChan d' e)
+  | PJoin, AChan _ _ :: _ => existsb is_sendonly typs
+  | PPipeline, [ASig _ (TCons c1 TNil) _; ASig _ (TCons c2 TNil) _] =>
+      is_sendonly c1 || chan_not_recvonly c2
   | PSort, [ASlice e] => has_unsup true true e
   | (PMin | PMax), [a; b] =>
       if identical a b then has_unsup true true a
@@ -100,25 +119,11 @@ Definition c01_class (p : plugin) (typs : list aty) : bool :=
   end.
 
 (* ---- open findings of C09 (known_findings.d/C09.json), identified narrowly ---- *)
-Definition is_unil (t : aty) : bool := match t with ABasic KUNil => true | _ => false end.
-Definition is_untyped_arg (t : aty) : bool := match t with ABasic k => is_untyped k | _ => false end.
-Definition is_sendonly (t : aty) : bool := match t with AChan DSend _ => true | _ => false end.
-Definition known_class (p : plugin) (typs : list aty) : string :=
-  match p with
-  | PGostring | PHash | PTuple | PKeys | PSet | PSort | PUnique =>
-      if existsb is_unil typs then "untyped-arg" else ""
-  | PClone =>      (* prints the type of a pointer to the argument: `*untyped string` *)
-      if existsb is_untyped_arg typs then "untyped-arg" else ""
-  | PJoin =>
-      match typs with
-      | AChan _ (AChan _ _) :: _ => ""
-      | AChan _ _ :: _ => if existsb is_sendonly typs then "sendonly-chan" else ""
-      | _ => ""
-      end
-  | PFmap => match typs with [_; AChan DSend _] => "sendonly-chan" | _ => "" end
-  | PDup => match typs with [AChan DSend _] => "sendonly-chan" | _ => "" end
-  | _ => ""
-  end.
+(* none at present: the former classes "untyped-arg" (hash/gostring/tuple of nil, clone of an
+   untyped constant) and "sendonly-chan" (join/fmap/dup of chan<- T) were repaired by
+   C09-fix-untyped-constant-argument and C09-fix-send-only-channel; they are now part of
+   [must_report] (nil, send only channels) or supported (clone of a constant). *)
+Definition known_class (p : plugin) (typs : list aty) : string := "".
 
 (* coverage tag: the shape class of the first argument *)
 Definition shape_tag (t : aty) : string :=
